@@ -13,7 +13,8 @@ ap = argparse.ArgumentParser()
 ap.add_argument("id"); ap.add_argument("variant")
 ap.add_argument("--src", default=None)
 ap.add_argument("--demo", action="append", default=[])
-ap.add_argument("--run", required=True)
+ap.add_argument("--run", default=None)
+ap.add_argument("--auto-sh", default=None, help="shell demo placed as zz_demo.sh: tried with the built binary as argument, then with the worktree")
 ap.add_argument("--checks", default=None)
 ap.add_argument("--tier", default="quick")
 ap.add_argument("--needs", default="")
@@ -34,6 +35,17 @@ try:
         rel, f = d.split("=")
         os.makedirs(os.path.dirname(os.path.join(wt, rel)), exist_ok=True)
         shutil.copy(os.path.join(src, f), os.path.join(wt, rel))
+    if a.auto_sh:
+        a.demo = a.demo or []
+        shutil.copy(os.path.join(src, a.auto_sh), os.path.join(wt, "zz_demo.sh"))
+        a.demo.append("zz_demo.sh=" + a.auto_sh)
+        for form in ("go build -o spok-bin ./cmd/spok && bash zz_demo.sh $PWD/spok-bin", "bash zz_demo.sh $PWD"):
+            rc, out = sh(form, cwd=wt)
+            if rc == 0:
+                a.run = form
+                break
+        else:
+            a.run = "go build -o spok-bin ./cmd/spok && bash zz_demo.sh $PWD/spok-bin"
     rc, out = sh(a.run, cwd=wt)
     meta["ran"].append({"what": "demonstration on the unchanged tree", "cmd": a.run, "exit": rc})
     print("demo without change: exit", rc)
@@ -59,27 +71,27 @@ try:
         print("demo with change: exit", rc)
         meta["ran"].append({"what": "demonstration with the change", "cmd": a.run, "exit": rc, "tail": out[-600:]})
         if rc == 0: ok = False; print("DEMO DOES NOT FAIL WITH THE CHANGE")
+    # run the checks against the scratch worktree (with the change applied), never against /repo
+    results = {}
+    if ok:
+        for d in a.demo:
+            try:
+                os.remove(os.path.join(wt, d.split("=")[0]))
+            except OSError:
+                pass
+        sh("rm -f spok-bin", cwd=wt)
+        cenv = dict(os.environ, VERIF_REPO=wt, VERIF_EVIDENCE="/tmp/seed-evidence", VERIF_REPLAYS="/tmp/seed-replays")
+        for c in (a.checks or a.id).split(","):
+            t0 = time.time()
+            p = subprocess.run(["/verif/check", c, a.tier], capture_output=True, text=True, env=cenv)
+            sigs = [l[4:].strip() for l in p.stdout.splitlines() if l.startswith("--- ")]
+            results[c] = {"exit": p.returncode, "signatures": sigs[:6], "wall_s": round(time.time() - t0, 1)}
+            print("check", c, a.tier, "-> exit", p.returncode, sigs[:4])
 finally:
-    subprocess.run("git -C /repo worktree remove --force %s; rm -rf %s" % (wt, wt), shell=True)
+    subprocess.run("git -C /repo worktree remove --force %s; rm -rf %s /verif/.build/*-_tmp_sw*" % (wt, wt), shell=True)
 meta["confirmed"] = ok
 if not ok:
     print("NOT CONFIRMED"); sys.exit(1)
-# run the checks against /repo with the change
-st = subprocess.run("git -C /repo status --porcelain", shell=True, capture_output=True, text=True).stdout.strip()
-assert st == "", "/repo not clean: " + st
-checks = (a.checks or a.id).split(",")
-results = {}
-try:
-    rc, out = sh("git -C /repo apply %s/patch.diff" % src)
-    assert rc == 0, out
-    for c in checks:
-        t0 = time.time()
-        p = subprocess.run(["/verif/check", c, a.tier], capture_output=True, text=True)
-        sigs = [l[4:].strip() for l in p.stdout.splitlines() if l.startswith("--- ")]
-        results[c] = {"exit": p.returncode, "signatures": sigs[:6], "wall_s": round(time.time() - t0, 1)}
-        print("check", c, a.tier, "-> exit", p.returncode, sigs[:4])
-finally:
-    subprocess.run("git -C /repo checkout -- . && git -C /repo clean -fdq", shell=True)
 meta["checks_" + a.tier] = results
 meta["caught_by"] = [c for c, r in results.items() if r["exit"] == 1]
 dst = "/verif/seeded/%s-%s" % (a.id, a.variant)
@@ -90,5 +102,4 @@ for f in os.listdir(src):
 meta["demo_placement"] = a.demo
 meta["demo_cmd"] = a.run
 json.dump(meta, open(os.path.join(dst, "meta.json"), "w"), indent=1)
-shutil.rmtree("/verif/replays", ignore_errors=True)
 print("saved", dst, "caught_by", meta["caught_by"])
